@@ -33,6 +33,7 @@ Variable diaglike : Mat -> Prop.               (* a diagonal matrix (Diag / Cons
 Variable is1x1 : Mat -> Prop.
 Variable shifted : Mat -> Mat -> Prop.         (* shifted A C : A = C + c I   (AddedDiag over a ConstantDiag) *)
 Variable scaled : Mat -> Mat -> Prop.          (* scaled A C : A = c C, c >= 0  (ConstantMul) *)
+Variable kron : Mat -> list Mat -> Prop.       (* kron A [C1; ..; Ck] : A = C1 (x) .. (x) Ck  (KroneckerProduct) *)
 
 Record kern_ok : Prop := {
   ko_dense : forall A, valid ADense A (k_dense K A);
@@ -85,7 +86,17 @@ Record kern_ok : Prop := {
   ko_cat_update : forall A E R B D st gi nr ni,
       valid AFactor A E -> valid AInvFactor A R -> compat E R ->
       k_cat_update K E R B D st gi = Ok (nr, ni) ->
-      valid ARoot (m_cat_rows K A B D) nr /\ (forall x, ni = Some x -> valid ARootInv (m_cat_rows K A B D) x)
+      valid ARoot (m_cat_rows K A B D) nr /\ (forall x, ni = Some x -> valid ARootInv (m_cat_rows K A B D) x);
+  (* Kronecker products: factorizations of the factors combine into one of the product *)
+  ko_eig_kron : forall A ms vecs es, kron A ms -> Forall2 (valid (AEig vecs)) ms es -> valid (AEig vecs) A (k_eig_kron K A vecs es);
+  ko_svd_kron : forall A ms us, kron A ms -> Forall2 (valid ASvd) ms us -> valid ASvd A (k_svd_kron K A us);
+  ko_chol_kron : forall A ms up cs, kron A ms -> Forall2 (valid (AChol up)) ms cs -> valid (AChol up) A (k_chol_kron K A cs up);
+  ko_root_kron : forall A ms rs, kron A ms -> Forall2 (valid ARoot) ms rs -> valid ARoot A (k_root_kron K A rs);
+  ko_rootinv_kron : forall A ms rs, kron A ms -> Forall2 (valid ARootInv) ms rs -> valid ARootInv A (k_rootinv_kron K A rs);
+  ko_iqld_kron : forall A rhs ld iq e,
+      match rhs, iq with Some _, Some x => valid (AIqld rhs false) A x | None, None => True | _, _ => False end ->
+      match ld, e with true, Some e' => valid (AEig true) A e' | false, None => True | _, _ => False end ->
+      valid (AIqld rhs ld) A (k_iqld_kron K A iq e)
 }.
 
 Hypothesis KO : kern_ok.
@@ -113,6 +124,10 @@ Proof.
   destruct (key_eqb k0 k); simpl; intuition.
 Qed.
 
+Lemma Forall2_imp {X Y} (R1 R2 : X -> Y -> Prop) l1 l2 :
+  (forall a b, R1 a b -> R2 a b) -> Forall2 R1 l1 l2 -> Forall2 R2 l1 l2.
+Proof. intros Himp F. induction F; constructor; auto. Qed.
+
 Definition get (i : nat) (h : heap) : option obj := get_obj K i h.
 
 (* static well-formedness of an object: what its profile promises about its matrix *)
@@ -121,7 +136,9 @@ Definition obj_wf (h : heap) (o : obj) : Prop :=
   (forall c, pf_cm_root (o_pf K o) = Some c -> exists oc, get c h = Some oc /\ scaled (o_mat K o) (o_mat K oc)) /\
   (pf_chol_ignore (o_pf K o) = true -> diaglike (o_mat K o)) /\
   (o_n K o = 1 -> o_square K o = true -> is1x1 (o_mat K o)) /\
-  (forall f, pf_td_name (o_pf K o) = Some f -> ends_with "to_dense" f = true).
+  (forall f, pf_td_name (o_pf K o) = Some f -> ends_with "to_dense" f = true) /\
+  (forall l, pf_eig (o_pf K o) = EigKron l ->
+     exists ms, Forall2 (fun c m => exists oc, get c h = Some oc /\ o_mat K oc = m) l ms /\ kron (o_mat K o) ms).
 
 Definition obj_ok (h : heap) (o : obj) : Prop :=
   memo_ok (o_mat K o) (o_memo K o) /\
@@ -266,12 +283,15 @@ Qed.
 
 Lemma obj_wf_ext h h' o o' : ext h h' -> static_eq o o' -> obj_wf h o -> obj_wf h' o'.
 Proof.
-  intros E (Epf & En & Esq & Em) (W1 & W2 & W3 & W4 & W5). unfold obj_wf. rewrite <- Epf, <- En, <- Esq, <- Em.
-  repeat split; auto.
+  intros E (Epf & En & Esq & Em) (W1 & W2 & W3 & W4 & W5 & W6). unfold obj_wf. rewrite <- Epf, <- En, <- Esq, <- Em.
+  split; [|split; [|split; [exact W3|split; [exact W4|split; [exact W5|]]]]].
   - intros c Hc. destruct (W1 c Hc) as (oc & G & Sh). destruct (E c oc G) as (oc' & G' & St).
     exists oc'. split; auto. destruct St as (_ & _ & _ & <-). exact Sh.
   - intros c Hc. destruct (W2 c Hc) as (oc & G & Sh). destruct (E c oc G) as (oc' & G' & St).
     exists oc'. split; auto. destruct St as (_ & _ & _ & <-). exact Sh.
+  - intros l Hl. destruct (W6 l Hl) as (ms & F & Kr). exists ms. split; [|exact Kr].
+    eapply Forall2_imp; [|exact F]. intros c m (oc & G & Emc). destruct (E c oc G) as (oc' & G' & St).
+    exists oc'. split; auto. destruct St as (_ & _ & _ & <-). exact Emc.
 Qed.
 
 (* replacing the cache of object i by a cache whose entries are all valid keeps the invariant *)
@@ -402,10 +422,12 @@ Qed.
 
 Lemma Inv_same_objs h h' : h_objs K h = h_objs K h' -> Inv h -> Inv h'.
 Proof.
-  intros Eo I i o G. unfold get, get_obj in *. rewrite <- Eo in G. destruct (I i o G) as (Mo & Ad & W1 & W2 & W34).
-  split; [exact Mo|]. split; [exact Ad|]. split; [|split; [|exact W34]].
+  intros Eo I i o G. unfold get, get_obj in *. rewrite <- Eo in G. destruct (I i o G) as (Mo & Ad & W1 & W2 & W3 & W4 & W5 & W6).
+  split; [exact Mo|]. split; [exact Ad|]. split; [|split; [|split; [exact W3|split; [exact W4|split; [exact W5|]]]]].
   - intros c Hc. destruct (W1 c Hc) as (oc & Gc & Sh). exists oc. unfold get, get_obj in *. rewrite <- Eo. auto.
   - intros c Hc. destruct (W2 c Hc) as (oc & Gc & Sh). exists oc. unfold get, get_obj in *. rewrite <- Eo. auto.
+  - intros l Hl. destruct (W6 l Hl) as (ms & F & Kr). exists ms. split; [|exact Kr].
+    eapply Forall2_imp; [|exact F]. intros c m (oc & Gc & Emc). exists oc. unfold get, get_obj in *. rewrite <- Eo. auto.
 Qed.
 
 Lemma ext_same_objs h h' : h_objs K h = h_objs K h' -> ext h h'.
@@ -473,7 +495,7 @@ Proof.
   induction fuel as [|f IH]; intros h0 i o G.
   - (* no fuel: the children loop raises on the first child *)
     simpl. intros h E I. unfold with_obj. destruct (E i o G) as (o' & G' & St). unfold get in G'. rewrite G'.
-    destruct (wf_of _ _ _ _ _ G E I G') as (_ & (_ & _ & _ & _ & Wtd)).
+    destruct (wf_of _ _ _ _ _ G E I G') as (_ & (_ & _ & _ & _ & Wtd & _)).
     assert (Em : o_mat K o = o_mat K o') by (destruct St as (_ & _ & _ & ?); auto).
     set (loop := fix kids (l : list nat) : H unit :=
            match l with [] => ret tt | _ :: _ => raise ValueError end).
@@ -491,7 +513,7 @@ Proof.
       destruct (fst _); auto. apply R. simpl. rewrite (Wtd fn eq_refl). left; reflexivity.
     + apply (SL _ h E I).
   - simpl. intros h E I. unfold with_obj. destruct (E i o G) as (o' & G' & St). unfold get in G'. rewrite G'.
-    destruct (wf_of _ _ _ _ _ G E I G') as (_ & (_ & _ & _ & _ & Wtd)).
+    destruct (wf_of _ _ _ _ _ G E I G') as (_ & (_ & _ & _ & _ & Wtd & _)).
     assert (Em : o_mat K o = o_mat K o') by (destruct St as (_ & _ & _ & ?); auto).
     set (loop := fix kids (l : list nat) : H unit :=
            match l with [] => ret tt | c :: r => to_dense K f c ;;; kids r end).
@@ -539,6 +561,18 @@ Ltac sstep :=
 Lemma mat_eq o o' : static_eq o o' -> o_mat K o = o_mat K o'.
 Proof. intros (_ & _ & _ & ?). auto. Qed.
 
+(* a call on every object of a list (the factors of a Kronecker product), results collected *)
+Lemma sound_mapM {A} h0 (f : nat -> H A) (Q : Mat -> A -> Prop) l ms :
+  Forall2 (fun c m => exists oc, get c h0 = Some oc /\ o_mat K oc = m) l ms ->
+  (forall c oc, get c h0 = Some oc -> sound h0 (f c) (Q (o_mat K oc))) ->
+  sound h0 (mapM K f l) (fun xs => Forall2 Q ms xs).
+Proof.
+  intros F Sf. induction F as [|c m l ms (oc & Gc & Em) F IH]; simpl.
+  - sstep. constructor.
+  - sstep; [apply (Sf c oc Gc)|]. intros x Hx. sstep; [apply IH|]. intros xs Hxs. sstep.
+    constructor; [rewrite <- Em; exact Hx | exact Hxs].
+Qed.
+
 (* ------------------------------------------------------------------ _symeig, _svd *)
 Lemma symeig_none fuel i vecs h : get i h = None -> symeig K fuel i vecs h = (Raise ValueError, h).
 Proof. destruct fuel; simpl; apply with_obj_none. Qed.
@@ -552,6 +586,10 @@ Lemma symeig_eq fuel i vecs :
                     | O => raise ValueError
                     | S f => e <- symeig K f c vecs ;; ret (k_eig_shift K (o_mat K o) e)
                     end
+    | EigKron l => match fuel with
+                   | O => raise ValueError
+                   | S f => es <- mapM K (fun c => symeig K f c vecs) l ;; ret (k_eig_kron K (o_mat K o) vecs es)
+                   end
     end).
 Proof. destruct fuel; reflexivity. Qed.
 
@@ -559,13 +597,17 @@ Lemma sound_symeig fuel : forall h0 i o vecs, get i h0 = Some o ->
   sound h0 (symeig K fuel i vecs) (valid (AEig vecs) (o_mat K o)).
 Proof.
   induction fuel as [|f IH]; intros h0 i o vecs G; rewrite symeig_eq;
-    apply (sound_with_obj_wf h0 i o _ _ G); intros h1 o' E1 I1 G1 St (W1 & _);
-    rewrite (mat_eq _ _ St); destruct (pf_eig (o_pf K o')) as [|c] eqn:Ee.
+    apply (sound_with_obj_wf h0 i o _ _ G); intros h1 o' E1 I1 G1 St (W1 & _ & _ & _ & _ & W6);
+    rewrite (mat_eq _ _ St); destruct (pf_eig (o_pf K o')) as [|c|l] eqn:Ee.
   - sstep; [apply (sound_to_dense _ h1 i o' G1)|]. intros _ _. sstep. apply (ko_symeig KO).
+  - sstep.
   - sstep.
   - sstep; [apply (sound_to_dense _ h1 i o' G1)|]. intros _ _. sstep. apply (ko_symeig KO).
   - destruct (W1 c eq_refl) as (oc & Gc & Sh).
     sstep; [apply (IH h1 c oc vecs Gc)|]. intros e He. sstep. eapply (ko_eig_shift KO); eauto.
+  - destruct (W6 l ltac:(first [exact Ee | reflexivity])) as (ms & F & Kr).
+    sstep; [apply (sound_mapM h1 _ (fun m => valid (AEig vecs) m) l ms F); intros c oc Gc; apply (IH h1 c oc vecs Gc)|].
+    intros es Hes. sstep. eapply (ko_eig_kron KO); eauto.
 Qed.
 
 Lemma key_svd : aspects_of_key (KFull (NStr "svd") [] []) = [ASvd].
@@ -584,26 +626,34 @@ Lemma svd_eq fuel i :
                       | O => raise ValueError
                       | S f => u <- svd K f c ;; ret (k_svd_shift K (o_mat K o) u)
                       end
+      | EigKron l => match fuel with
+                     | O => raise ValueError
+                     | S f => us <- mapM K (svd K f) l ;; ret (k_svd_kron K (o_mat K o) us)
+                     end
       end) [] []).
 Proof. destruct fuel; reflexivity. Qed.
 
 Lemma sound_svd fuel : forall h0 i o, get i h0 = Some o -> sound h0 (svd K fuel i) (valid ASvd (o_mat K o)).
 Proof.
   induction fuel as [|f IH]; intros h0 i o G; rewrite svd_eq;
-    apply (sound_with_obj_wf h0 i o _ _ G); intros h1 o' E1 I1 G1 St (W1 & _);
+    apply (sound_with_obj_wf h0 i o _ _ G); intros h1 o' E1 I1 G1 St (W1 & _ & _ & _ & _ & W6);
     rewrite (mat_eq _ _ St);
     (eapply sound_weaken;
       [apply (sound_cached h1 i o' "_svd" (Some "svd") false _ [] [] G1)
       | intros v Hv; apply Hv; left; reflexivity]);
-    unfold key_of; simpl name_of_opt; destruct (pf_eig (o_pf K o')) as [|c] eqn:Ee.
+    unfold key_of; simpl name_of_opt; destruct (pf_eig (o_pf K o')) as [|c|l] eqn:Ee.
   - sstep; [apply (sound_symeig _ h1 i o' true G1)|]. intros e He. sstep.
     intros a [<-|[]]. apply (ko_svd_of_eig KO). exact He.
+  - sstep.
   - sstep.
   - sstep; [apply (sound_symeig _ h1 i o' true G1)|]. intros e He. sstep.
     intros a [<-|[]]. apply (ko_svd_of_eig KO). exact He.
   - destruct (W1 c eq_refl) as (oc & Gc & Sh).
     sstep; [apply (IH h1 c oc Gc)|]. intros u Hu. sstep.
     intros a [<-|[]]. eapply (ko_svd_shift KO); eauto.
+  - destruct (W6 l ltac:(first [exact Ee | reflexivity])) as (ms & F & Kr).
+    sstep; [apply (sound_mapM h1 _ (fun m => valid ASvd m) l ms F); intros c oc Gc; apply (IH h1 c oc Gc)|].
+    intros us Hus. sstep. intros a [<-|[]]. eapply (ko_svd_kron KO); eauto.
 Qed.
 
 (* ------------------------------------------------------------------ _cholesky, cholesky *)
@@ -624,65 +674,117 @@ Lemma aspects_chol_full args kw :
   match bind_params ["upper"] args kw with Ok [u] => [AChol (truthy u)] | _ => [] end.
 Proof. reflexivity. Qed.
 
-Lemma sound__cholesky h0 i o args kw : get i h0 = Some o ->
-  sound h0 (_cholesky K i args kw)
-        (fun v => forall u, bind_params ["upper"] args kw = Ok [u] -> valid (AChol (truthy u)) (o_mat K o) v).
-Proof.
-  intros G. unfold _cholesky.
-  apply (sound_with_obj_wf h0 i o _ _ G); intros h1 o' E1 I1 G1 St (_ & _ & Wd & _).
-  rewrite (mat_eq _ _ St).
-  assert (Body : forall (Q : Val -> Prop),
-            (forall u v, bind_params ["upper"] args kw = Ok [u] -> valid (AChol (truthy u)) (o_mat K o') v -> Q v) ->
-            sound h1 (p <- lift (bind_params ["upper"] args kw) ;;
-                      lift (k_chol K (o_mat K o') (truthy (nth 0 p PNone)))) Q).
-  { intros Q HQ. sstep; [apply sound_lift with (Q := fun p => bind_params ["upper"] args kw = Ok p); auto|].
-    intros p Hp. destruct (bind_params1 _ _ _ _ Hp) as (u & ->). sstep. intros v Hv. simpl in Hv.
-    eapply HQ; eauto. apply (ko_chol KO). exact Hv. }
-  destruct (pf_chol_ignore (o_pf K o')) eqn:Eig.
-  - eapply sound_weaken; [apply (sound_cached h1 i o' "_cholesky" (Some "cholesky") true _ args kw G1)|].
-    + unfold key_of. simpl name_of_opt. apply Body. intros u v Hu Hv a [<-|[<-|[]]];
-        eapply (ko_chol_diag KO); eauto.
-    + unfold key_of. simpl name_of_opt. intros v Hv u Hu.
-      destruct (truthy u); apply Hv; simpl; auto.
-  - eapply sound_weaken; [apply (sound_cached h1 i o' "_cholesky" (Some "cholesky") false _ args kw G1)|].
-    + unfold key_of. simpl name_of_opt. apply Body. intros u v Hu Hv a Ha.
-      rewrite aspects_chol_full, Hu in Ha. destruct Ha as [<-|[]]. exact Hv.
-    + unfold key_of. simpl name_of_opt. intros v Hv u Hu. apply Hv.
-      rewrite aspects_chol_full, Hu. left; reflexivity.
-Qed.
+Lemma _cholesky_eq fuel i args kw :
+  _cholesky K fuel i args kw =
+  with_obj K i (fun o =>
+    cached_m K i "_cholesky" (Some "cholesky") (pf_chol_ignore (o_pf K o)) (fun a k =>
+      p <- lift (bind_params ["upper"] a k) ;;
+      match pf_eig (o_pf K o) with
+      | EigKron l =>
+          match fuel with
+          | O => raise ValueError
+          | S f => cs <- mapM K (fun c => cholesky_of K (_cholesky K f c) [] [("upper", nth 0 p PNone)]) l ;;
+                   ret (k_chol_kron K (o_mat K o) cs (truthy (nth 0 p PNone)))
+          end
+      | _ => lift (k_chol K (o_mat K o) (truthy (nth 0 p PNone)))
+      end) args kw).
+Proof. destruct fuel; reflexivity. Qed.
 
-(* ignore_args is sound: on an object whose _cholesky ignores its arguments (the Diag family) the cached entry
-   is a valid factor for BOTH orientations, whichever call stored it *)
-Lemma sound__cholesky_ignore h0 i o args kw : get i h0 = Some o -> pf_chol_ignore (o_pf K o) = true ->
-  sound h0 (_cholesky K i args kw) (fun v => valid (AChol false) (o_mat K o) v /\ valid (AChol true) (o_mat K o) v).
-Proof.
-  intros G Hig. unfold _cholesky.
-  apply (sound_with_obj_wf h0 i o _ _ G); intros h1 o' E1 I1 G1 St (_ & _ & Wd & _).
-  rewrite (mat_eq _ _ St).
-  assert (Eig : pf_chol_ignore (o_pf K o') = true) by (destruct St as (<- & _); exact Hig).
-  rewrite Eig.
-  eapply sound_weaken; [apply (sound_cached h1 i o' "_cholesky" (Some "cholesky") true _ args kw G1)|].
-  - unfold key_of. simpl name_of_opt.
-    sstep; [apply sound_lift with (Q := fun _ => True); auto|]. intros p _. sstep. intros v Hv.
-    intros a [<-|[<-|[]]]; eapply (ko_chol_diag KO); eauto; apply (ko_chol KO); exact Hv.
-  - unfold key_of. simpl name_of_opt. intros v Hv. split; apply Hv; simpl; auto.
-Qed.
+(* what a value returned by _cholesky(args, kw) is: the factor of the requested orientation *)
+Definition chol_post (A : Mat) (args : list pyv) (kw : kwargs) (v : Val) : Prop :=
+  forall u, bind_params ["upper"] args kw = Ok [u] -> valid (AChol (truthy u)) A v.
 
-Lemma sound_cholesky h0 i o args kw : get i h0 = Some o ->
-  sound h0 (cholesky K i args kw) (valid (AChol (chol_up args kw)) (o_mat K o)).
+(* cholesky(upper) in terms of the object's _cholesky *)
+Lemma sound_cholesky_of h0 (chol_ : list pyv -> kwargs -> H Val) A args kw :
+  sound h0 (chol_ [] [("upper", PBool false)]) (chol_post A [] [("upper", PBool false)]) ->
+  sound h0 (cholesky_of K chol_ args kw) (valid (AChol (chol_up args kw)) A).
 Proof.
-  intros G. unfold cholesky.
+  intros Sc. unfold cholesky_of.
   sstep; [apply sound_lift with (Q := fun p => bind_params ["upper"] args kw = Ok p); auto|].
   intros p Hp. destruct (bind_params1 _ _ _ _ Hp) as (u & ->).
-  sstep; [apply (sound__cholesky h0 i o [] [("upper", PBool false)] G)|].
-  intros c Hc. sstep. unfold chol_up. rewrite Hp. simpl nth.
+  sstep; [exact Sc|]. intros c Hc. sstep. unfold chol_up. rewrite Hp. simpl nth.
   specialize (Hc (PBool false) eq_refl). simpl in Hc.
   destruct (truthy u); [apply (ko_tri_T KO)|]; exact Hc.
 Qed.
 
-Lemma sound_cholesky0 h0 i o : get i h0 = Some o ->
-  sound h0 (cholesky K i [] []) (valid (AChol false) (o_mat K o)).
-Proof. intros G. exact (sound_cholesky h0 i o [] [] G). Qed.
+(* _cholesky: the returned (cached or computed) factor has the requested orientation; on an object whose _cholesky
+   ignores its arguments (the Diag family) it is a valid factor for BOTH orientations, whichever call stored it *)
+Lemma sound__cholesky fuel : forall h0 i o args kw, get i h0 = Some o ->
+  sound h0 (_cholesky K fuel i args kw)
+        (fun v => chol_post (o_mat K o) args kw v /\
+                  (pf_chol_ignore (o_pf K o) = true -> valid (AChol false) (o_mat K o) v /\ valid (AChol true) (o_mat K o) v)).
+Proof.
+  induction fuel as [|f IH]; intros h0 i o args kw G; rewrite _cholesky_eq;
+    apply (sound_with_obj_wf h0 i o _ _ G); intros h1 o' E1 I1 G1 St (_ & _ & Wd & _ & _ & W6);
+    rewrite (mat_eq _ _ St);
+    (assert (Eig' : pf_chol_ignore (o_pf K o) = pf_chol_ignore (o_pf K o')) by (destruct St as (-> & _); reflexivity));
+    rewrite Eig'; clear Eig';
+    match goal with
+    | |- sound _ (cached_m _ _ _ _ _ ?body _ _) _ =>
+        assert (Body : forall a k (Q : Val -> Prop),
+                  (forall u v, bind_params ["upper"] a k = Ok [u] -> valid (AChol (truthy u)) (o_mat K o') v -> Q v) ->
+                  sound h1 (body a k) Q)
+    end.
+  1,3: intros a k Q HQ;
+       (sstep; [apply sound_lift with (Q := fun p => bind_params ["upper"] a k = Ok p); auto|]);
+       intros p Hp; destruct (bind_params1 _ _ _ _ Hp) as (u & ->); simpl nth;
+       destruct (pf_eig (o_pf K o')) as [|c|l] eqn:Ee.
+  - sstep. intros v Hv. eapply HQ; eauto. apply (ko_chol KO). exact Hv.
+  - sstep. intros v Hv. eapply HQ; eauto. apply (ko_chol KO). exact Hv.
+  - sstep.
+  - sstep. intros v Hv. eapply HQ; eauto. apply (ko_chol KO). exact Hv.
+  - sstep. intros v Hv. eapply HQ; eauto. apply (ko_chol KO). exact Hv.
+  - destruct (W6 l ltac:(first [exact Ee | reflexivity])) as (ms & F & Kr).
+    sstep; [apply (sound_mapM h1 _ (fun m => valid (AChol (truthy u)) m) l ms F); intros c oc Gc|].
+    + eapply sound_weaken; [apply (sound_cholesky_of h1 _ (o_mat K oc))|].
+      * eapply sound_weaken; [apply (IH h1 c oc _ _ Gc) | intros v (Hv & _); exact Hv].
+      * intros v Hv. exact Hv.
+    + intros cs Hcs. sstep. eapply HQ; eauto. eapply (ko_chol_kron KO); eauto.
+  - (* fuel 0 *)
+    destruct (pf_chol_ignore (o_pf K o')) eqn:Eig.
+    + eapply sound_weaken; [apply (sound_cached h1 i o' "_cholesky" (Some "cholesky") true _ args kw G1)|].
+      * unfold key_of. simpl name_of_opt. apply Body. intros u v Hu Hv a [<-|[<-|[]]];
+          eapply (ko_chol_diag KO); eauto.
+      * unfold key_of. simpl name_of_opt. intros v Hv. split.
+        -- intros u Hu. destruct (truthy u); apply Hv; simpl; auto.
+        -- intros _. split; apply Hv; simpl; auto.
+    + eapply sound_weaken; [apply (sound_cached h1 i o' "_cholesky" (Some "cholesky") false _ args kw G1)|].
+      * unfold key_of. simpl name_of_opt. apply Body. intros u v Hu Hv a Ha.
+        rewrite aspects_chol_full, Hu in Ha. destruct Ha as [<-|[]]. exact Hv.
+      * unfold key_of. simpl name_of_opt. intros v Hv. split; [|discriminate]. intros u Hu. apply Hv.
+        rewrite aspects_chol_full, Hu. left; reflexivity.
+  - destruct (pf_chol_ignore (o_pf K o')) eqn:Eig.
+    + eapply sound_weaken; [apply (sound_cached h1 i o' "_cholesky" (Some "cholesky") true _ args kw G1)|].
+      * unfold key_of. simpl name_of_opt. apply Body. intros u v Hu Hv a [<-|[<-|[]]];
+          eapply (ko_chol_diag KO); eauto.
+      * unfold key_of. simpl name_of_opt. intros v Hv. split.
+        -- intros u Hu. destruct (truthy u); apply Hv; simpl; auto.
+        -- intros _. split; apply Hv; simpl; auto.
+    + eapply sound_weaken; [apply (sound_cached h1 i o' "_cholesky" (Some "cholesky") false _ args kw G1)|].
+      * unfold key_of. simpl name_of_opt. apply Body. intros u v Hu Hv a Ha.
+        rewrite aspects_chol_full, Hu in Ha. destruct Ha as [<-|[]]. exact Hv.
+      * unfold key_of. simpl name_of_opt. intros v Hv. split; [|discriminate]. intros u Hu. apply Hv.
+        rewrite aspects_chol_full, Hu. left; reflexivity.
+Qed.
+
+(* ignore_args is sound: on an object whose _cholesky ignores its arguments (the Diag family) the cached entry
+   is a valid factor for BOTH orientations, whichever call stored it *)
+Lemma sound__cholesky_ignore fuel h0 i o args kw : get i h0 = Some o -> pf_chol_ignore (o_pf K o) = true ->
+  sound h0 (_cholesky K fuel i args kw) (fun v => valid (AChol false) (o_mat K o) v /\ valid (AChol true) (o_mat K o) v).
+Proof.
+  intros G Hig. eapply sound_weaken; [apply (sound__cholesky fuel h0 i o args kw G)|]. intros v (_ & Hb). auto.
+Qed.
+
+Lemma sound_cholesky fuel h0 i o args kw : get i h0 = Some o ->
+  sound h0 (cholesky K fuel i args kw) (valid (AChol (chol_up args kw)) (o_mat K o)).
+Proof.
+  intros G. unfold cholesky. apply sound_cholesky_of.
+  eapply sound_weaken; [apply (sound__cholesky fuel h0 i o _ _ G)|]. intros v (Hv & _). exact Hv.
+Qed.
+
+Lemma sound_cholesky0 fuel h0 i o : get i h0 = Some o ->
+  sound h0 (cholesky K fuel i [] []) (valid (AChol false) (o_mat K o)).
+Proof. intros G. exact (sound_cholesky fuel h0 i o [] [] G). Qed.
 
 (* ------------------------------------------------------------------ method choice, diagonalization *)
 Lemma sound_choose_root st h0 i : sound h0 (choose_root_method K st i) (fun _ => True).
@@ -713,21 +815,30 @@ Proof. intros E. apply (proj1 (entry1 A k a v E)). Qed.
 Lemma entry1_intro A k a v : aspects_of_key k = [a] -> valid a A v -> entry_ok A k v.
 Proof. intros E. apply (proj2 (entry1 A k a v E)). Qed.
 
-Lemma sound_diagonalization st fuel h0 i o args kw : get i h0 = Some o ->
-  sound h0 (diagonalization K st fuel i args kw) (valid (AEig true) (o_mat K o)).
+Lemma sound_diagonalization_base st fuel h1 i o' a k : get i h1 = Some o' ->
+  sound h1 (diagonalization_base K st fuel i o' a k) (valid (AEig true) (o_mat K o')).
 Proof.
-  intros G. unfold diagonalization.
-  apply (sound_with_obj_wf h0 i o _ _ G); intros h1 o' E1 I1 G1 St _.
-  rewrite (mat_eq _ _ St).
-  eapply sound_weaken; [apply (sound_cached h1 i o' "diagonalization" (Some "diagonalization") false _ args kw G1)
-                       | unfold key_of; simpl name_of_opt; intros v Hv; apply (entry1_elim _ _ _ _ (aspects_diagz args kw)); exact Hv].
+  intros G1. unfold diagonalization_base.
+  eapply sound_weaken; [apply (sound_cached h1 i o' "diagonalization" (Some "diagonalization") false _ a k G1)
+                       | unfold key_of; simpl name_of_opt; intros v Hv; apply (entry1_elim _ _ _ _ (aspects_diagz a k)); exact Hv].
   unfold key_of. simpl name_of_opt.
-  eapply sound_weaken; [|intros v Hv; apply (entry1_intro _ _ _ _ (aspects_diagz args kw)); exact Hv].
+  eapply sound_weaken; [|intros v Hv; apply (entry1_intro _ _ _ _ (aspects_diagz a k)); exact Hv].
   sstep; [apply sound_lift with (Q := fun _ => True); auto|]. intros p _.
   sstep; [sstep|].
   sstep; [apply sound_lift with (Q := fun _ => True); auto|]. intros m0 _.
   sstep; [|sstep; [apply (sound_symeig _ h1 i o' true G1) | sstep]].
   sstep; [apply sound_fresh_run|]. intros r _. sstep. intros v Hv. eapply (ko_diagz_lanczos KO); eauto.
+Qed.
+
+Lemma sound_diagonalization st fuel h0 i o args kw : get i h0 = Some o ->
+  sound h0 (diagonalization K st fuel i args kw) (valid (AEig true) (o_mat K o)).
+Proof.
+  intros G. unfold diagonalization.
+  apply (sound_with_obj_wf h0 i o _ _ G); intros h1 o' E1 I1 G1 St _.
+  rewrite (mat_eq _ _ St). cbv zeta.
+  destruct (pf_eig (o_pf K o')) as [|c|l]; try apply (sound_diagonalization_base st fuel h1 i o' _ _ G1).
+  sstep; [apply sound_lift with (Q := fun _ => True); auto|]. intros p _.
+  apply (sound_diagonalization_base st fuel h1 i o' _ _ G1).
 Qed.
 
 (* ------------------------------------------------------------------ root_decomposition *)
@@ -741,7 +852,7 @@ Lemma root_decomposition_eq st fuel i args kw :
       m0 <- lift (method_of (nth 0 p PNone)) ;;
       m <- match m0 with None => choose_root_method K st i | Some s => ret s end ;;
       r <- (if String.eqb m "cholesky"
-            then catch (c <- cholesky K i [] [] ;; ret (inl (k_cholop K c))) [RuntimeError] (ret (inr "symeig"))
+            then catch (c <- cholesky K fuel i [] [] ;; ret (inl (k_cholop K c))) [RuntimeError] (ret (inr "symeig"))
             else ret (inr m)) ;;
       match r with
       | inl v => ret v
@@ -753,6 +864,18 @@ Lemma root_decomposition_eq st fuel i args kw :
           else if String.eqb m "lanczos" then r <- fresh_run K ;; ret (k_root_lanczos K (o_mat K o) r)
           else raise RuntimeError
       end in
+    match pf_eig (o_pf K o) with
+    | EigKron l =>
+        cached_m K i "root_decomposition" (Some "root_decomposition") false (fun a k =>
+          p <- lift (bind_params ["method"] a k) ;;
+          if o_n K o <=? st_max_chol st
+          then cached_m K i "root_decomposition" (Some "root_decomposition") false base [] [("method", nth 0 p PNone)]
+          else match fuel with
+               | O => raise ValueError
+               | S f => rs <- mapM K (fun c => root_decomposition K st f c [] [("method", nth 0 p PNone)]) l ;;
+                        ret (k_root_kron K (o_mat K o) rs)
+               end) args kw
+    | _ =>
     match pf_cm_root (o_pf K o), fuel with
     | Some c, S f =>
         cached_m K i "root_decomposition" (Some "root_decomposition") false (fun a k =>
@@ -761,6 +884,7 @@ Lemma root_decomposition_eq st fuel i args kw :
           ret (k_root_scale K (o_mat K o) r)) args kw
     | Some _, O => raise ValueError
     | None, _ => cached_m K i "root_decomposition" (Some "root_decomposition") false base args kw
+    end
     end).
 Proof. destruct fuel; reflexivity. Qed.
 
@@ -773,7 +897,7 @@ Lemma sound_root_base st fuel h1 i o' (a : list pyv) (k : kwargs) :
       m0 <- lift (method_of (nth 0 p PNone)) ;;
       m <- match m0 with None => choose_root_method K st i | Some s => ret s end ;;
       r <- (if String.eqb m "cholesky"
-            then catch (c <- cholesky K i [] [] ;; ret (inl (k_cholop K c))) [RuntimeError] (ret (inr "symeig"))
+            then catch (c <- cholesky K fuel i [] [] ;; ret (inl (k_cholop K c))) [RuntimeError] (ret (inr "symeig"))
             else ret (inr m)) ;;
       match r with
       | inl v => ret v
@@ -802,7 +926,7 @@ Proof.
     instantiate (1 := fun r => match r with inl v => valid ARoot (o_mat K o') v | inr _ => True end).
     sstep; [|sstep; exact Logic.I].
     sstep; [|sstep; exact Logic.I].
-    sstep; [apply (sound_cholesky0 h1 i o' G1)|]. intros c Hc. sstep. apply (ko_cholop KO). exact Hc.
+    sstep; [apply (sound_cholesky0 _ h1 i o' G1)|]. intros c Hc. sstep. apply (ko_cholop KO). exact Hc.
   - intros [v|m'] Hr; [sstep; exact Hr|].
     sstep; [sstep; [apply (sound_to_dense _ h1 i o' G1)|]; intros _ _; sstep; apply (ko_root_pivchol KO)|].
     sstep; [sstep; [apply (sound_symeig _ h1 i o' true G1)|]; intros e He; sstep; apply (ko_root_eig KO); exact He|].
@@ -817,38 +941,90 @@ Lemma sound_root_decomposition st fuel : forall h0 i o args kw, get i h0 = Some 
 Proof.
   induction fuel as [|f IH]; intros h0 i o args kw G; rewrite root_decomposition_eq; cbv zeta;
     apply (sound_with_obj_wf h0 i o _ _ G); intros h1 o' E1 I1 G1 St W;
-    rewrite (mat_eq _ _ St); destruct (pf_cm_root (o_pf K o')) as [c|] eqn:Ecm.
-  - sstep.
-  - eapply sound_weaken; [apply (sound_cached h1 i o' "root_decomposition" (Some "root_decomposition") false _ args kw G1)
-                         | unfold key_of; simpl name_of_opt; intros v Hv; apply (entry1_elim _ _ _ _ (aspects_root args kw)); exact Hv].
-    unfold key_of. simpl name_of_opt.
-    eapply sound_weaken; [apply (sound_root_base st 0 h1 i o' args kw G1 W)
-                         | intros v Hv; apply (entry1_intro _ _ _ _ (aspects_root args kw)); exact Hv].
-  - destruct W as (_ & W2 & _). destruct (W2 c Ecm) as (oc & Gc & Sc).
-    eapply sound_weaken; [apply (sound_cached h1 i o' "root_decomposition" (Some "root_decomposition") false _ args kw G1)
-                         | unfold key_of; simpl name_of_opt; intros v Hv; apply (entry1_elim _ _ _ _ (aspects_root args kw)); exact Hv].
-    unfold key_of. simpl name_of_opt.
-    eapply sound_weaken; [|intros v Hv; apply (entry1_intro _ _ _ _ (aspects_root args kw)); exact Hv].
-    sstep; [apply sound_lift with (Q := fun _ => True); auto|]. intros p _.
-    sstep; [apply (IH h1 c oc _ _ Gc)|]. intros r Hr. sstep. eapply (ko_root_scale KO); eauto.
-  - eapply sound_weaken; [apply (sound_cached h1 i o' "root_decomposition" (Some "root_decomposition") false _ args kw G1)
-                         | unfold key_of; simpl name_of_opt; intros v Hv; apply (entry1_elim _ _ _ _ (aspects_root args kw)); exact Hv].
-    unfold key_of. simpl name_of_opt.
-    eapply sound_weaken; [apply (sound_root_base st (S f) h1 i o' args kw G1 W)
-                         | intros v Hv; apply (entry1_intro _ _ _ _ (aspects_root args kw)); exact Hv].
+    rewrite (mat_eq _ _ St);
+    (* the base method through its cache, under any arguments *)
+    (assert (CB : forall fu a k, sound h1 (cached_m K i "root_decomposition" (Some "root_decomposition") false
+                    (fun (a : list pyv) (k : kwargs) =>
+                       p <- lift (bind_params ["method"] a k) ;;
+                       if negb (o_square K o') then raise RuntimeError else
+                       if o_n K o' =? 1 then d <- to_dense K fu i ;; ret (k_root_1x1 K d) else
+                       m0 <- lift (method_of (nth 0 p PNone)) ;;
+                       m <- match m0 with None => choose_root_method K st i | Some s => ret s end ;;
+                       r <- (if String.eqb m "cholesky"
+                             then catch (c <- cholesky K fu i [] [] ;; ret (inl (k_cholop K c))) [RuntimeError] (ret (inr "symeig"))
+                             else ret (inr m)) ;;
+                       match r with
+                       | inl v => ret v
+                       | inr m =>
+                           if String.eqb m "pivoted_cholesky" then to_dense K fu i ;;; ret (k_root_pivchol K (o_mat K o'))
+                           else if String.eqb m "symeig" then e <- symeig K fu i true ;; ret (k_root_eig K e)
+                           else if String.eqb m "diagonalization" then e <- diagonalization K st fu i [] [] ;; ret (k_root_eig K e)
+                           else if String.eqb m "svd" then u <- svd K fu i ;; ret (k_root_svd K u)
+                           else if String.eqb m "lanczos" then r <- fresh_run K ;; ret (k_root_lanczos K (o_mat K o') r)
+                           else raise RuntimeError
+                       end) a k) (valid ARoot (o_mat K o')))
+     by (intros fu a k;
+         (eapply sound_weaken; [apply (sound_cached h1 i o' "root_decomposition" (Some "root_decomposition") false _ a k G1)
+                               | unfold key_of; simpl name_of_opt; intros v Hv; apply (entry1_elim _ _ _ _ (aspects_root a k)); exact Hv]);
+         unfold key_of; simpl name_of_opt;
+         (eapply sound_weaken; [apply (sound_root_base st fu h1 i o' a k G1 W)
+                               | intros v Hv; apply (entry1_intro _ _ _ _ (aspects_root a k)); exact Hv])));
+    idtac.
+  - (* no fuel for children *)
+    destruct (pf_eig (o_pf K o')) as [|cs|l] eqn:Ee.
+    + destruct (pf_cm_root (o_pf K o')) as [c|] eqn:Ecm; [sstep | apply CB].
+    + destruct (pf_cm_root (o_pf K o')) as [c|] eqn:Ecm; [sstep | apply CB].
+    + eapply sound_weaken; [apply (sound_cached h1 i o' "root_decomposition" (Some "root_decomposition") false _ args kw G1)
+                           | unfold key_of; simpl name_of_opt; intros v Hv; apply (entry1_elim _ _ _ _ (aspects_root args kw)); exact Hv].
+      unfold key_of. simpl name_of_opt.
+      eapply sound_weaken; [|intros v Hv; apply (entry1_intro _ _ _ _ (aspects_root args kw)); exact Hv].
+      sstep; [apply sound_lift with (Q := fun _ => True); auto|]. intros p _.
+      sstep; [apply CB | sstep].
+  - assert (CM : forall c, pf_cm_root (o_pf K o') = Some c ->
+              sound h1 (cached_m K i "root_decomposition" (Some "root_decomposition") false
+                          (fun (a : list pyv) (k : kwargs) =>
+                             p <- lift (bind_params ["method"] a k) ;;
+                             r <- root_decomposition K st f c [] [("method", nth 0 p PNone)] ;;
+                             ret (k_root_scale K (o_mat K o') r)) args kw) (valid ARoot (o_mat K o'))).
+    { intros c Ecm. destruct W as (_ & W2 & _). destruct (W2 c Ecm) as (oc & Gc & Sc).
+      eapply sound_weaken; [apply (sound_cached h1 i o' "root_decomposition" (Some "root_decomposition") false _ args kw G1)
+                           | unfold key_of; simpl name_of_opt; intros v Hv; apply (entry1_elim _ _ _ _ (aspects_root args kw)); exact Hv].
+      unfold key_of. simpl name_of_opt.
+      eapply sound_weaken; [|intros v Hv; apply (entry1_intro _ _ _ _ (aspects_root args kw)); exact Hv].
+      sstep; [apply sound_lift with (Q := fun _ => True); auto|]. intros p _.
+      sstep; [apply (IH h1 c oc _ _ Gc)|]. intros r Hr. sstep. eapply (ko_root_scale KO); eauto. }
+    destruct (pf_eig (o_pf K o')) as [|cs|l] eqn:Ee.
+    + destruct (pf_cm_root (o_pf K o')) as [c|] eqn:Ecm; [apply (CM c eq_refl) | apply CB].
+    + destruct (pf_cm_root (o_pf K o')) as [c|] eqn:Ecm; [apply (CM c eq_refl) | apply CB].
+    + (* Kron: small -> the base method (a second cache entry); else the product of the factors' roots *)
+      destruct W as (_ & _ & _ & _ & _ & W6). destruct (W6 l ltac:(first [exact Ee | reflexivity])) as (ms & F & Kr).
+      eapply sound_weaken; [apply (sound_cached h1 i o' "root_decomposition" (Some "root_decomposition") false _ args kw G1)
+                           | unfold key_of; simpl name_of_opt; intros v Hv; apply (entry1_elim _ _ _ _ (aspects_root args kw)); exact Hv].
+      unfold key_of. simpl name_of_opt.
+      eapply sound_weaken; [|intros v Hv; apply (entry1_intro _ _ _ _ (aspects_root args kw)); exact Hv].
+      sstep; [apply sound_lift with (Q := fun _ => True); auto|]. intros p _.
+      sstep; [apply CB|].
+      sstep; [apply (sound_mapM h1 _ (fun m => valid ARoot m) l ms F); intros c oc Gc; apply (IH h1 c oc _ _ Gc)|].
+      intros rs Hrs. sstep. eapply (ko_root_kron KO); eauto.
 Qed.
 
 (* ------------------------------------------------------------------ root_inv_decomposition *)
-Lemma sound_root_inv st fuel h0 i o args kw : get i h0 = Some o ->
-  sound h0 (root_inv_decomposition K st fuel i args kw) (valid ARootInv (o_mat K o)).
+Lemma root_inv_decomposition_eq st fuel i args kw :
+  root_inv_decomposition K st fuel i args kw =
+  root_inv_body K (match fuel with
+                   | O => fun _ _ _ => raise ValueError
+                   | S f => root_inv_decomposition K st f
+                   end) st fuel i args kw.
+Proof. destruct fuel; reflexivity. Qed.
+
+Lemma sound_root_inv_base st fuel h1 i o' a k : get i h1 = Some o' -> obj_wf h1 o' ->
+  sound h1 (root_inv_base K st fuel i o' a k) (valid ARootInv (o_mat K o')).
 Proof.
-  intros G. unfold root_inv_decomposition.
-  apply (sound_with_obj_wf h0 i o _ _ G); intros h1 o' E1 I1 G1 St (_ & _ & _ & W1x1 & _).
-  rewrite (mat_eq _ _ St).
-  eapply sound_weaken; [apply (sound_cached h1 i o' "root_inv_decomposition" (Some "root_inv_decomposition") false _ args kw G1)
-                       | unfold key_of; simpl name_of_opt; intros v Hv; apply (entry1_elim _ _ _ _ (aspects_rootinv args kw)); exact Hv].
+  intros G1 (_ & _ & _ & W1x1 & _). unfold root_inv_base.
+  eapply sound_weaken; [apply (sound_cached h1 i o' "root_inv_decomposition" (Some "root_inv_decomposition") false _ a k G1)
+                       | unfold key_of; simpl name_of_opt; intros v Hv; apply (entry1_elim _ _ _ _ (aspects_rootinv a k)); exact Hv].
   unfold key_of. simpl name_of_opt.
-  eapply sound_weaken; [|intros v Hv; apply (entry1_intro _ _ _ _ (aspects_rootinv args kw)); exact Hv].
+  eapply sound_weaken; [|intros v Hv; apply (entry1_intro _ _ _ _ (aspects_rootinv a k)); exact Hv].
   sstep; [apply sound_lift with (Q := fun _ => True); auto|]. intros p _.
   destruct (o_square K o') eqn:Esq; simpl negb; cbv iota.
   2:{ sstep. }
@@ -858,7 +1034,7 @@ Proof.
   sstep; [apply sound_lift with (Q := fun _ => True); auto|]. intros m0 _.
   eapply sound_bind with (Q1 := fun _ => True);
     [destruct m0; [sstep; exact Logic.I | apply sound_choose_root]|]. intros m _.
-  sstep; [sstep; [apply (sound_cholesky0 h1 i o' G1)|]; intros L HL; sstep; apply (ko_rootinv_chol KO); exact HL|].
+  sstep; [sstep; [apply (sound_cholesky0 _ h1 i o' G1)|]; intros L HL; sstep; apply (ko_rootinv_chol KO); exact HL|].
   sstep.
   { (* lanczos: the root of the same run is written into the cache as a side effect *)
     sstep; [sstep|].
@@ -874,6 +1050,36 @@ Proof.
   sstep; [sstep; [apply (sound_root_decomposition st _ h1 i o' [] [] G1)|]; intros r Hr; sstep;
           apply (ko_rootinv_pinv KO); apply (ko_root_factor KO); exact Hr|].
   sstep.
+Qed.
+
+(* the body of root_inv_decomposition, given that the calls on the factors of a Kronecker product are sound *)
+Lemma sound_root_inv_body st fuel (kc : nat -> list pyv -> kwargs -> H Val) h0 i o args kw :
+  (forall h1 c oc a k, get c h1 = Some oc -> sound h1 (kc c a k) (valid ARootInv (o_mat K oc))) ->
+  get i h0 = Some o ->
+  sound h0 (root_inv_body K kc st fuel i args kw) (valid ARootInv (o_mat K o)).
+Proof.
+  intros Skc G. unfold root_inv_body.
+  apply (sound_with_obj_wf h0 i o _ _ G); intros h1 o' E1 I1 G1 St W.
+  rewrite (mat_eq _ _ St). cbv zeta.
+  destruct (pf_eig (o_pf K o')) as [|c|l] eqn:Ee; try apply (sound_root_inv_base st fuel h1 i o' _ _ G1 W).
+  (* Kron: its own cached method; small -> super().root_inv_decomposition() (no arguments); else the factors *)
+  assert (W' := W). destruct W' as (_ & _ & _ & _ & _ & W6). destruct (W6 l ltac:(first [exact Ee | reflexivity])) as (ms & F & Kr).
+  eapply sound_weaken; [apply (sound_cached h1 i o' "root_inv_decomposition" (Some "root_inv_decomposition") false _ args kw G1)
+                       | unfold key_of; simpl name_of_opt; intros v Hv; apply (entry1_elim _ _ _ _ (aspects_rootinv args kw)); exact Hv].
+  unfold key_of. simpl name_of_opt.
+  eapply sound_weaken; [|intros v Hv; apply (entry1_intro _ _ _ _ (aspects_rootinv args kw)); exact Hv].
+  sstep; [apply sound_lift with (Q := fun _ => True); auto|]. intros p _.
+  sstep; [apply (sound_root_inv_base st fuel h1 i o' _ _ G1 W)|].
+  sstep; [apply (sound_mapM h1 _ (fun m => valid ARootInv m) l ms F); intros c oc Gc; apply (Skc h1 c oc _ _ Gc)|].
+  intros rs Hrs. sstep. eapply (ko_rootinv_kron KO); eauto.
+Qed.
+
+Lemma sound_root_inv st fuel : forall h0 i o args kw, get i h0 = Some o ->
+  sound h0 (root_inv_decomposition K st fuel i args kw) (valid ARootInv (o_mat K o)).
+Proof.
+  induction fuel as [|f IH]; intros h0 i o args kw G; rewrite root_inv_decomposition_eq;
+    apply sound_root_inv_body; auto.
+  intros h1 c oc a k _. sstep.
 Qed.
 
 (* ------------------------------------------------------------------ eigh / eigvalsh
@@ -979,24 +1185,48 @@ Proof.
 Qed.
 
 (* ------------------------------------------------------------------ inv_quad_logdet, logdet, solve, diagonal, sample *)
+Lemma sound_iqld_base st fuel h1 i o' r l : get i h1 = Some o' ->
+  sound h1 (inv_quad_logdet_base K st fuel i o' r l) (valid (AIqld r l) (o_mat K o')).
+Proof.
+  intros G1. unfold inv_quad_logdet_base. cbv zeta.
+  sstep.
+  - sstep; [apply sound_in_cache_all|]. intros b _.
+    eapply sound_bind with (Q1 := fun t => match t with Some x => valid AFactor (o_mat K o') x /\ v_is_tri K x = true | None => True end).
+    + sstep; [|sstep; exact Logic.I].
+      sstep; [apply (sound_root_decomposition st _ h1 i o' [] [] G1)|]. intros r0 Hr. sstep.
+      destruct (v_is_tri K (v_root K r0)) eqn:Et; [|exact Logic.I]. split; [apply (ko_root_factor KO); exact Hr | exact Et].
+    + intros [t|] Ht.
+      * destruct Ht as (Hf & Htri). sstep; [sstep|sstep; eapply (ko_iqld_tri KO); eauto].
+      * sstep; [apply (sound_cholesky0 _ h1 i o' G1)|]. intros c Hc.
+        sstep; [sstep|sstep; apply (ko_iqld_chol KO); exact Hc].
+  - destruct l; simpl negb; cbv iota.
+    + sstep; [sstep|].
+      sstep; [apply (sound_preconditioner st h1 i o' G1)|]. intros p Hp. sstep. apply (ko_iqld_cg KO). exact Hp.
+    + destruct r as [r|]; [|sstep]. sstep; [sstep|]. sstep.
+      apply (ko_iqld_cg KO). apply (ko_no_precond KO).
+Qed.
+
 Lemma sound_iqld st fuel h0 i o rhs ld : get i h0 = Some o ->
   sound h0 (inv_quad_logdet K st fuel i rhs ld) (valid (AIqld rhs ld) (o_mat K o)).
 Proof.
   intros G. unfold inv_quad_logdet.
   apply (sound_with_obj_wf h0 i o _ _ G); intros h1 o' E1 I1 G1 St _.
   rewrite (mat_eq _ _ St). cbv zeta.
-  sstep.
-  - sstep; [apply sound_in_cache_all|]. intros b _.
-    eapply sound_bind with (Q1 := fun t => match t with Some x => valid AFactor (o_mat K o') x /\ v_is_tri K x = true | None => True end).
-    + sstep; [|sstep; exact Logic.I].
-      sstep; [apply (sound_root_decomposition st _ h1 i o' [] [] G1)|]. intros r Hr. sstep.
-      destruct (v_is_tri K (v_root K r)) eqn:Et; [|exact Logic.I]. split; [apply (ko_root_factor KO); exact Hr | exact Et].
-    + intros [t|] Ht.
-      * destruct Ht as (Hf & Htri). sstep; [sstep|sstep; eapply (ko_iqld_tri KO); eauto].
-      * sstep; [apply (sound_cholesky0 h1 i o' G1)|]. intros c Hc.
-        sstep; [sstep|sstep; apply (ko_iqld_chol KO); exact Hc].
-  - sstep; [sstep|].
-    sstep; [apply (sound_preconditioner st h1 i o' G1)|]. intros p Hp. sstep. apply (ko_iqld_cg KO). exact Hp.
+  destruct (pf_eig (o_pf K o')) as [|c|l] eqn:Ee; try apply (sound_iqld_base st fuel h1 i o' _ _ G1).
+  (* Kron: inv_quad from super().inv_quad_logdet(rhs, logdet=False), logdet from the cached diagonalization *)
+  eapply sound_bind with (Q1 := fun iq => match rhs, iq with
+                                          | Some _, Some x => valid (AIqld rhs false) (o_mat K o') x
+                                          | None, None => True
+                                          | _, _ => False end).
+  { destruct rhs as [r|]; [|sstep; exact Logic.I].
+    sstep; [apply (sound_iqld_base st fuel h1 i o' _ _ G1)|]. intros x Hx. sstep. exact Hx. }
+  intros iq Hiq.
+  eapply sound_bind with (Q1 := fun e => match ld, e with
+                                         | true, Some e' => valid (AEig true) (o_mat K o') e'
+                                         | false, None => True
+                                         | _, _ => False end).
+  { destruct ld; [|sstep; exact Logic.I]. sstep; [apply (sound_diagonalization st _ h1 i o' [] [] G1)|]. intros e He. sstep. exact He. }
+  intros e He. sstep. apply (ko_iqld_kron KO); auto.
 Qed.
 
 Lemma sound_logdet st fuel h0 i o : get i h0 = Some o ->
@@ -1049,7 +1279,7 @@ Proof.
   intros I G Qk. unfold res_ok.
   destruct q; cbn [run_query aspect_of_query].
   - exact (sound_to_dense _ h i o G h (ext_refl h) I).
-  - exact (sound_cholesky h i o args kw G h (ext_refl h) I).
+  - exact (sound_cholesky _ h i o args kw G h (ext_refl h) I).
   - exact (sound_root_decomposition st _ h i o args kw G h (ext_refl h) I).
   - exact (sound_root_inv st _ h i o args kw G h (ext_refl h) I).
   - exact (sound_diagonalization st _ h i o args kw G h (ext_refl h) I).
